@@ -111,6 +111,23 @@ def eval_scene(fam, s):
     if k == 'polygon':
         label, pts = s[1], s[2]
         return must_raise('polygon-' + label, 'n%d' % len(pts), s, lambda: ConvexPolygon(tuple(Point(*fp(p)) for p in pts)))
+    if k == 'zeroed-vector':
+        # a Vector that served legally while non-zero (length taken, normalised, used as normal / direction of valid objects) is
+        # zeroed in place by coordinate assignment or by the documented in-place Line.move of a line it supports
+        ctor, how, p, d = s[1], s[2], s[3], s[4]
+        v = Vector(*fp(d))
+        P = Point(*fp(p))
+        v.length(), v.normalized(), Plane(P, v), Line(P, v), v.angle(Vector(1.0, 0.5, 0.25))
+        if how == 'setitem':
+            for i in range(3):
+                v[i] = 0.0
+        else:
+            Line(v, Vector(1.0, 1.0, 0.0)).move(Vector(*[-c for c in fp(d)]))
+        w = Vector(0.0, 1.0, -2.0) if abs(fp(d)[0]) > 0 else Vector(1.0, 0.0, 2.0)
+        th = {'Plane': lambda: Plane(P, v), 'Line': lambda: Line(P, v), 'Segment': lambda: Segment(P, v), 'HalfLine': lambda: HalfLine(P, v),
+              'Plane-PVV': lambda: Plane(P, w, v), 'Parallelogram': lambda: Parallelogram(P, v, w),
+              'Parallelepiped': lambda: Parallelepiped(P, w, Vector(3.0, 1.0, 1.0), v)}[ctor]
+        return must_raise('zeroed-vector-' + ctor, how, s, th)
     if k == 'plane':
         label = s[1]
         if label == 'zero-normal':
@@ -307,6 +324,10 @@ def families(tier):
             sc.append(('plane', 'parallel-vectors', pose.point((1, 0, 2)), pose.vec(v), (0, 0, 0)))
     for d in (-2, -1, 0, 1, 2, 0.5):
         sc.append(('plane', 'gf-zero', d))
+    for ctor in ('Plane', 'Line', 'Segment', 'HalfLine', 'Plane-PVV', 'Parallelogram', 'Parallelepiped'):
+        for how in ('setitem', 'line-move'):
+            for d in A.D1[::2]:
+                sc.append(('zeroed-vector', ctor, how, poses[-1].point((1, 0, 2)), poses[-1].vec(d)))
     fams.append(ListFamily('planes', sc))
     # parallelogram / parallelepiped
     sc = []
